@@ -32,7 +32,7 @@ META = {
             "that byte changed concurrently; the unrepaired behaviour is kept as the model mutant "
             "pin_single_shot.",
     "technique": "TLA+ spec at atomic-operation granularity model-checked with TLC (+ mutants, "
-                 "+ finding configuration); real-thread races recorded per atomic step and validated by "
+                 "+ pre-repair pin model as mutant); real-thread races recorded per atomic step and validated by "
                  "TLC searching the interleavings (Trace_MetaCAS.tla)",
 }
 SPEC_DIR = "metacas"
